@@ -9,6 +9,8 @@ SPEC = dict(
         "SymVerif.C38.fdiff_inbounds",
         "SymVerif.C38.fdiff_inbounds_all",
         "SymVerif.C38.fdiff_row0_sum_one",
+        "SymVerif.C38.fdiff_rowk_sum_zero",
+        "SymVerif.C38.fdiff_unique",
         "SymVerif.C38.fdiff_empty",
         "SymVerif.C38.iterate_derivative_linear_mul",
         "SymVerif.C38.dv_old_succ",
